@@ -35,7 +35,8 @@ def run(ctx):
         rand_args = None
     else:
         c07.linker_models(ctx, c07.FAMILIES)
-        cases = c07.gen_programs(ctx, c07.FAMILIES, 250 if ctx.quick() else 0, rng)
+        cases = c07.gen_programs(ctx, ["types", "consts", "svcs", "mixed"], 0, rng)       # every program of these families
+        cases += c07.gen_programs(ctx, ["modules"], 4000 if ctx.quick() else 0, rng)
         extra = []
         rand_args = ["-builtin", "-corpus", corpus, "-random", "4000" if ctx.quick() else "300000"]
     rows, crashes = vlib.run_driver_batches(ctx, drv, "c08", cases, args=extra, batch=max(20, len(cases) // 32 + 1),
